@@ -332,6 +332,27 @@ func (f *Fleet) Capture(i int) error {
 			f.Written.Add(dbi, k, v)
 		}
 	}
+	// ... and complete: after the pass the live entries of every shadow DBI are exactly the
+	// application's entries (a committed put or delete that is not turned into a version would be
+	// reverted by the next merge and never reach the other instances)
+	for dbi, am := range app {
+		for k, av := range am {
+			v, ok := after[dbi][k]
+			if !ok || v.Del || !bytes.Equal(v.Val, av) {
+				return fmt.Errorf("capture on %s: the application has %s/%x = %q but after the capture pass the shadow DBI has %v (present=%v): the committed write was not captured", in.Name, dbi, k, av, v, ok)
+			}
+		}
+	}
+	for dbi, m := range after {
+		for k, v := range m {
+			if v.Del {
+				continue
+			}
+			if _, present := app[dbi][k]; !present {
+				return fmt.Errorf("capture on %s: the application does not have %s/%x (deleted or never written) but after the capture pass the shadow DBI still holds it live %v: the committed delete was not captured", in.Name, dbi, k, v)
+			}
+		}
+	}
 	in.Dirty = false
 	in.LastSynced = header.TxnID(lm.LastTxnID(in.Env.Env))
 	return nil
